@@ -121,3 +121,5 @@ more("C16", "(seventh round) KeepNames accompanies identifier minification.")
 more("C17", "(seventh round) no sort orders files by token.Pos.")
 more("C18", "(seventh round) no build context carries tool tags.")
 more("C20", "(seventh round) LoadPackages only raises SrcModTime.")
+more("C08", "(seventh round) the builtin recover is deferred as $recover itself, never inside the proxy lambda.")
+more("C13", "(seventh round) the math.Modf overlay evaluated on representatives of every class of operand against Go's math.Modf.")
